@@ -19,7 +19,8 @@ Damage catalogue (each with all other shares intact AND with exactly k-1 other s
      with pubkey+signature swapped, the same with a higher seqnum, higher seqnum + attacker's
      signature under the genuine pubkey, v2 prefix+signature+hashes over v1's blocks, v1's body
      under v2's prefix+signature, missing};
- (e) truncation of the share data at every length (container consistent) and of the file itself.
+ (e) truncation of the share data at every length (container consistent) and of the file itself;
+ (f) a share number stored TWICE (home server + a fourth server), every pair of 9 x 8 states.
 Oracle: the result is content(v1), content(v2) or an error - never other bytes - and exactly
 content(v2) whenever >= k untouched v2 shares are present; the read terminates.
 """
@@ -188,7 +189,16 @@ def _execute(case, seed):
         blobs[sh] = b
     intact = [sh for sh in range(N) if case["slots"][str(sh)][0] == "v2"]
     boot.urandom.reset(seed, b"c10-exec")
-    g = grid.Grid(N, nclients=2, client_kw=dict(k=K, n=N, happy=1))
+    dup = case.get("dup")          # [shnum, spec]: a second copy of that share on a further server
+    if dup is not None:
+        blobs["dup"] = build(prep, dup[0], dup[1])
+        if isinstance(blobs["dup"], str):
+            obs["skipped"] = True
+            return viol, obs
+        if dup[1][0] == "v2" and dup[0] not in intact:
+            intact.append(dup[0])
+    g = grid.Grid(N + (1 if dup is not None else 0), nclients=2, client_kw=dict(k=K, n=N, happy=1))
+    ms.bound_pending(g)
     try:
         si = prep["si"]
         cap = prep["cap"][case["cap"]]
@@ -203,7 +213,9 @@ def _execute(case, seed):
             g.quiesce()
         for sh in range(N):
             ms.write_share(g, si, prep["server"][sh], sh, blobs[sh])
-        desc = "%s %s-cap%s%s slots=%r" % (case["fkey"], case["cap"], " (node has read the intact file before)" if case.get("warm") else "", " (CPU-pool results in a later reactor turn)" if case.get("cpu") == "async" else "", case["slots"])
+        if dup is not None:
+            ms.write_share(g, si, N, dup[0], blobs["dup"])
+        desc = "%s %s-cap%s%s slots=%r%s" % (case["fkey"], case["cap"], " (node has read the intact file before)" if case.get("warm") else "", " (CPU-pool results in a later reactor turn)" if case.get("cpu") == "async" else "", case["slots"], " + second copy of share %d on a 4th server in state %r" % (dup[0], dup[1]) if dup is not None else "")
 
         def judge(what, b, got, w1, w2):
             if b == "livelock":
@@ -230,7 +242,9 @@ def _execute(case, seed):
             else:
                 name = lib_imm.failure_name(b[0][1])
                 obs["outcomes"].append("err:" + name)
-                if len(intact) >= K:
+                if name == "HarnessError":
+                    viol.append(("retrieve-spins-on-damaged-duplicate-share", "%s: %s never returns to the reactor: Retrieve re-activates the same damaged (server, share) for ever, issuing one advise_corrupt_share call per round (%s)" % (desc, what, b[0][1].getErrorMessage()[:120])))
+                elif len(intact) >= K:
                     viol.append(("read-failed-with-k-intact-shares:" + name, "%s: %s failed (%s) although shares %r of v2 are untouched" % (desc, what, b[0][1].getErrorMessage()[:300], intact)))
 
         try:
@@ -374,6 +388,27 @@ def subst_cases(fkey, caps, warm_too):
     return out
 
 
+def dup_cases(fkey, seed, caps):
+    """a share number stored twice (home server + a 4th server), each copy in one of several states"""
+    prep = prepare(fkey, seed)
+    f = ms.fields(ms.share_data(prep["v2"][0]))
+    last = max(int(nm[5:]) for nm in f if nm.startswith("block") and nm[5:].isdigit())
+    states = [["v2"], ["flip", f["block%d" % last][0] + 1, 1], ["flip", f["block0"][0], 1], ["v1"], ["resigned-newer"], ["trunc", f["share_hash_chain"][0] + 43],
+              ["from", "share_hash_chain", "zeros"], ["from", "signature", "zeros"]]
+    out = []
+    for sh in range(N):
+        for home in states + [["missing"]]:
+            for spare in states:
+                if home == ["v2"] and spare == ["v2"]:
+                    continue
+                for cap in caps:
+                    for mode in ("intact", "needed"):
+                        c = single(fkey, cap, sh, mode, home, "dup", ranged=False)
+                        c["dup"] = [sh, spare]
+                        out.append(c)
+    return out
+
+
 def readonly_cannot_publish(seed):
     """(d) a node built from the read-cap refuses to write; a verify-cap yields no readable node"""
     res = common.Result()
@@ -439,6 +474,7 @@ def run(tier, seed):
             cases += subst_cases(fkey, ["ro"], warm_too=False)
             cases += [c for c in subst_cases(fkey, ["rw"], warm_too=True) if c["warm"]]
             cases += [dict(c, cpu="async", ranged=False) for c in subst_cases(fkey, ["ro"], warm_too=False)]
+            cases += dup_cases(fkey, seed, ["ro"])
     else:
         for fkey in ("SDMF", "MDMF", "MDMF1"):
             caps = ["ro", "rw"] if fkey != "MDMF1" else ["ro"]
@@ -448,6 +484,7 @@ def run(tier, seed):
             cases += field_cases(fkey, seed, caps, [0, 1, 2], ["intact", "needed"], warm_too=True)
             cases += subst_cases(fkey, caps, warm_too=True)
             cases += [dict(c, cpu="async") for c in subst_cases(fkey, ["ro"], warm_too=False) + field_cases(fkey, seed, ["ro"], [0, 1, 2], ["intact", "needed"], warm_too=False)]
+            cases += dup_cases(fkey, seed, caps) + [dict(c, cpu="async") for c in dup_cases(fkey, seed, ["ro"])]
     # a flip in "needed" mode with other == victim is meaningless
     cases = [c for c in cases if sum(1 for s in c["slots"].values() if s[0] != "missing") >= 1]
     for fkey in sorted(set(c["fkey"] for c in cases)):
